@@ -771,6 +771,15 @@ func (sc *specCtx) call(e *CCall) Val {
 			return &Term{"(s-ref " + x.S + ")", SRef, nil}
 		}
 		return x
+	case "absval":
+		// abstract integer value of an opaque object (uninterpreted function of the reference)
+		x := arg(0)
+		fn := "absval_" + sanitize(x.Sort)
+		if !vc.declared[fn] {
+			vc.declared[fn] = true
+			vc.emitDecl("(declare-fun " + fn + " (" + x.Sort + ") " + vc.idxSort() + ")")
+		}
+		return &Term{"(" + fn + " " + x.S + ")", vc.idxSort(), types.Typ[types.Int]}
 	case "pow2":
 		a := sc.solo(arg(0))
 		if vc.mode == "bv" {
